@@ -26,6 +26,7 @@ func init() {
 }
 
 func runC15(c *core.Ctx) {
+	c15Visited = map[*ssa.Function]bool{}
 	ctor := c.P.Func("ociunify", "New")
 	if ctor == nil {
 		c.Fail("C15.R0", "anchor/ociunify.New", 0, "ociunify.New not found")
@@ -219,6 +220,38 @@ func c15VerifyBothResults(c *core.Ctx, br *ssa.Function) {
 	}
 }
 
+var c15Visited = map[*ssa.Function]bool{}
+
+// resultHelper: the returned error (or the whole result tuple) is the result of
+// a static call to a helper of package ociunify other than both/bothResults.
+func resultHelper(ev ssa.Value, r *ssa.Return, br, both *ssa.Function) *ssa.Function {
+	var call *ssa.Call
+	switch x := ev.(type) {
+	case *ssa.Call:
+		call = x
+	case *ssa.Extract:
+		call, _ = x.Tuple.(*ssa.Call)
+	}
+	if call == nil {
+		return nil
+	}
+	sc := call.Call.StaticCallee()
+	if sc == nil || sc.Blocks == nil || sc.Signature.Recv() != nil {
+		return nil
+	}
+	o := sc
+	if sc.Origin() != nil {
+		o = sc.Origin()
+	}
+	if o == br || o == both || !strings.HasSuffix(facts.FuncName(o), o.Name()) || !strings.Contains(o.String(), "ociunify.") {
+		return nil
+	}
+	if strings.HasPrefix(o.Name(), "runRead") || o.Name() == "mk1" || o.Name() == "mk2" {
+		return nil
+	}
+	return o
+}
+
 // c15BothSucceed: every success return of a writer/deleter method is justified.
 func c15BothSucceed(c *core.Ctx, fn *ssa.Function, key string, br, both *ssa.Function) {
 	fromHelper := func(v ssa.Value, h *ssa.Function) bool {
@@ -239,6 +272,15 @@ func c15BothSucceed(c *core.Ctx, fn *ssa.Function, key string, br, both *ssa.Fun
 		ev := facts.RetVal(r, n-1)
 		// error provably non-nil?
 		if call, ok := ev.(*ssa.Call); ok && facts.CalleeName(&call.Call) == "fmt.Errorf" {
+			continue
+		}
+		// the result is produced by a package-local helper: the obligation moves into the helper
+		if h := resultHelper(ev, r, br, both); h != nil {
+			if !c15Visited[h] {
+				c15Visited[h] = true
+				c.Analysed(facts.FuncName(h))
+				c15BothSucceed(c, h, key+"/via "+h.Name(), br, both)
+			}
 			continue
 		}
 		ok := false
